@@ -3,7 +3,9 @@
 // the binary64 bit pattern:
 //   P 0 | P 1 X Y | L n (X Y)*n | R n (X Y)*n | Y k (n (X Y)*n)*k | M t n geom*n      t = 4..7 (GEOS type ids)
 // ops:  U <g>            every unary construction / measure
-//       N <g>            normalize, normalize twice, reverse, reverse twice, clone, orientPolygons(1/0) + measures + equalities
+//       N <g>            normalize, normalize twice, reverse, reverse twice, clone, orientPolygons(1/0) + measures + equalities;
+//                        ind_*: equalsIdentical / equalsExact (both argument orders) of each result with an independently
+//                        constructed equal geometry, taken right after the operation, before anything queries an envelope
 //       E <g> | <g>      equalsExact / equalsIdentical of the two, and of their normal forms
 //       H level x y      HilbertCode::encode (C++), GEOSHilbertCode_r        D level i   HilbertCode::decode
 //       O ax ay bx by px py   GEOSOrientationIndex_r (used to key the known finding on inexact orientation of collinear doubles)
@@ -81,6 +83,18 @@ static std::string measures(const GEOSGeometry* g) {
       << " " << GEOSGeom_getDimensions_r(h, g) << " " << (int)GEOSisEmpty_r(h, g) << " " << GEOSGeomTypeId_r(h, g);
     return s.str();
 }
+static Toks toks(const std::string& s);
+// an independently constructed copy (parsed back from the geometry's own text) compared in both argument orders; nothing between
+// the operation that produced g and these comparisons queries g's envelope.  result: eqi(g,x) eqi(x,g) eqx(g,x) eqx(x,g)
+static std::string indep(GEOSGeometry* g) {
+    if (!g) return "ERR";
+    std::string txt; show(g, txt);
+    Toks t = toks(txt); GEOSGeometry* x = readGeom(t);
+    if (!x || t.bad) { if (x) GEOSGeom_destroy_r(h, x); return "ERR"; }
+    std::string o = std::to_string((int)GEOSEqualsIdentical_r(h, g, x)) + std::to_string((int)GEOSEqualsIdentical_r(h, x, g))
+                  + std::to_string((int)GEOSEqualsExact_r(h, g, x, 0.0)) + std::to_string((int)GEOSEqualsExact_r(h, x, g, 0.0));
+    GEOSGeom_destroy_r(h, x); return o;
+}
 static std::vector<std::string> splitBar(const std::string& s) { std::vector<std::string> v; std::stringstream ss(s); std::string t; while (std::getline(ss, t, '|')) v.push_back(t); return v; }
 static Toks toks(const std::string& s) { Toks t; std::stringstream ss(s); std::string w; while (ss >> w) t.t.push_back(w); return t; }
 
@@ -132,16 +146,21 @@ int main() {
             else {
                 out += "in=" + sg(g, false) + " ; meas=" + measures(g);
                 GEOSGeometry* cl = GEOSGeom_clone_r(h, g);
+                out += " ; ind_clone=" + indep(cl);
                 out += " ; clone=" + sg(cl, false) + " ; cloneM=" + (cl ? measures(cl) : "ERR");
                 out += " ; eqx_clone=" + std::to_string(cl ? (int)GEOSEqualsExact_r(h, g, cl, 0.0) : -9) + " ; eqi_clone=" + std::to_string(cl ? (int)GEOSEqualsIdentical_r(h, g, cl) : -9);
                 GEOSGeometry* n1 = GEOSGeom_clone_r(h, g); int rc1 = n1 ? GEOSNormalize_r(h, n1) : -9;
+                out += " ; ind_norm=" + (rc1 == 0 ? indep(n1) : std::string("ERR"));       // first thing after normalize
                 out += " ; norm=" + (rc1 == 0 ? sg(n1, false) : "ERR:" + lastErr) + " ; normM=" + (rc1 == 0 ? measures(n1) : "ERR");
                 GEOSGeometry* n2 = (rc1 == 0) ? GEOSGeom_clone_r(h, n1) : nullptr; int rc2 = n2 ? GEOSNormalize_r(h, n2) : -9;
+                out += " ; ind_norm2=" + (rc2 == 0 ? indep(n2) : std::string("ERR"));
                 out += " ; norm2=" + (rc2 == 0 ? sg(n2, false) : "ERR:" + lastErr);
                 out += " ; eqx_n12=" + std::to_string(rc2 == 0 ? (int)GEOSEqualsExact_r(h, n1, n2, 0.0) : -9) + " ; eqi_n12=" + std::to_string(rc2 == 0 ? (int)GEOSEqualsIdentical_r(h, n1, n2) : -9);
                 GEOSGeometry* r1 = GEOSReverse_r(h, g);
+                out += " ; ind_rev=" + indep(r1);
                 out += " ; rev=" + sg(r1, false) + " ; revM=" + (r1 ? measures(r1) : "ERR");
                 GEOSGeometry* r2 = r1 ? GEOSReverse_r(h, r1) : nullptr;
+                out += " ; ind_revrev=" + indep(r2);
                 out += " ; revrev=" + sg(r2, false);
                 out += " ; eqx_rr=" + std::to_string(r2 ? (int)GEOSEqualsExact_r(h, g, r2, 0.0) : -9) + " ; eqi_rr=" + std::to_string(r2 ? (int)GEOSEqualsIdentical_r(h, g, r2) : -9);
                 // normal form of the reversed geometry
